@@ -180,6 +180,12 @@ theorem same_box_for_both_starts :
     ∧ h5StartArgs = ["startdistfile", "opts.getStartDistStep()", "qmin", "qmax", "pmin", "pmax", "oclh", "Qb", "Ib", "bl", "dE"]
     ∧ setSizeArgs = ["ps_bins", "nbunches"] := ⟨rfl, rfl, rfl⟩
 
+/-- the results file is created for the simulated grid, with the RADIATION field as the source of the CSR records, the
+    BEAM-DYNAMICS impedance as the stored impedance (and the length of the padded records), and one particle record per
+    tracked particle -/
+theorem results_file_arguments :
+    h5FileCtorArgs = ["ofname", "grid_t1", "&rdtn_field", "wake_impedance", "trackme.size()", "t_sync", "f_rev"] := rfl
+
 /-! non-vacuity: a concrete environment over ℚ satisfying `Chain` for the box part is exhibited by evaluation of the
     generated expressions: GridSize 5, PhaseSpaceSize 12, shift 1 ⇒ box [−9, 3], origin at cell 3 -/
 def exEnv : PhysEnv ℚ :=
